@@ -637,7 +637,7 @@ func s1Retransmissions(c *vh.Ctx, r *rand.Rand) {
 // S9F9 notices included), errors = T3 outcomes.
 func optionMatrix(c *vh.Ctx, validate, auto bool, hmode int) {
 	o := genx.DefaultOptions()
-	o.T3 = 60 * time.Millisecond
+	o.T3 = 250 * time.Millisecond // far above the scripted reply latency: a T3 here is never a scheduling accident
 	o.ValidateSessionID, o.AutoS9F9, o.HandlerMode, o.TraceTraffic = validate, auto, hmode, (hmode+b2i(validate)+b2i(auto))%2 == 1
 	s := newS(c, fmt.Sprintf("options-v%d-a%d-h%d", b2i(validate), b2i(auto), hmode), o, nil)
 	s.stableNoHandler = hmode == 1
@@ -672,13 +672,17 @@ func optionMatrix(c *vh.Ctx, validate, auto bool, hmode int) {
 		if cl.Res != want {
 			s.fail("a reply under a foreign session ID had the wrong effect on the waiting send", fmt.Sprintf("%s validation=%v result=%s", where, validate, genx.ResName(cl.Res)))
 		}
-		// one plain T3
-		cl = e.Start(genx.KSyncW, bg)
-		s.wait(cl)
+		// one plain T3 (first round only)
+		nT3 := int64(b2i(validate))
+		if where == "gen0" {
+			cl = e.Start(genx.KSyncW, bg)
+			s.wait(cl)
+			nT3++
+		}
 		p.TakeHeld()
 		p.Mute.Store(false)
-		if auto {
-			n := int64(1 + b2i(validate))
+		if auto && nT3 > 0 {
+			n := nT3
 			s.must(waitFor(5*time.Second, func() bool { return p.S9F9Seen.Load() >= n }), "S9F9 after T3")
 		}
 		if validate {
